@@ -20,6 +20,7 @@ RULE = (
     "option for 8 names, has/get argument by 4 names and all positions, the has_* predicates, ordered listings, each with "
     "include_base True/False); a rejected add_* must leave the answers identical to those before it; invariants are checked "
     "on the listings; sequences of add_* operations are also fed to ArgsFormat(elements, base). Commands stacking their "
+    "Also: after the final comparison the builder goes on and every container a query returned is mutated, then the built format is asked again (it is a value); after a replacement that failed half-way the real builder goes on and must still end consistent. "
     "format through CommandConfig.build_args_format are compared with the same model. non-trivial = sequence containing a "
     "collision or ordering-rule attempt (some operation rejected, or a set_* after an add_*); distinct by (base id, op tuple)."
 )
